@@ -64,8 +64,44 @@ pub fn obs_ids(res: &std::result::Result<SearchResult, String>) -> Value {
 }
 
 /// C07: query matching. C08: filter semantics (match_all + filter).
+/// A word of the corpus with one or two character edits (also on multi-byte characters).
+fn typo(r: &mut StdRng, w: &str) -> String {
+  let mut c: Vec<char> = w.chars().collect();
+  for _ in 0..r.gen_range(1..=2) {
+    if c.is_empty() {
+      break;
+    }
+    let i = r.gen_range(0..c.len());
+    match r.gen_range(0..3) {
+      0 => {
+        c.remove(i);
+      }
+      1 => c.insert(i, *pick(r, &['a', 'e', 'u', 'x'])),
+      _ => c[i] = *pick(r, &['a', 'e', 'u', 'x']),
+    }
+  }
+  c.into_iter().collect()
+}
+
+/// Sets n.fz on every scored term node (also the groups of query_string / multi_match nodes).
+fn annotate_fuzzy(q: &mut Value, fz: &Value) {
+  match q {
+    Value::Object(o) => {
+      if o.get("k").and_then(|k| k.as_str()) == Some("term") && o.get("sc").and_then(|b| b.as_bool()) == Some(true) {
+        o.insert("fz".into(), fz.clone());
+      }
+      for (_, v) in o.iter_mut() {
+        annotate_fuzzy(v, fz);
+      }
+    }
+    Value::Array(a) => a.iter_mut().for_each(|v| annotate_fuzzy(v, fz)),
+    _ => {}
+  }
+}
+
 fn family_match(r: &mut StdRng, scn: usize, fam: &str, n_req: usize, out: &mut Vec<Value>) -> Result<usize> {
-  let knobs = Knobs::default();
+  let mut knobs = Knobs::default();
+  knobs.unicode_words = fam == "query";
   let storage = storage_kind(r);
   let b = build_index(r, &knobs, storage)?;
   let reader = b.idx.reader()?;
@@ -91,6 +127,48 @@ fn family_match(r: &mut StdRng, scn: usize, fam: &str, n_req: usize, out: &mut V
           }
         }
       }
+    }
+  }
+  // typo-tolerant requests (README): words of the corpus with 1-2 edits under a request-level
+  // fuzzy option whose expansion cap is above the dictionary size
+  if fam == "query" {
+    let words: Vec<String> = b
+      .versions
+      .values()
+      .flat_map(|d| TEXT_FIELDS.iter().filter_map(|f| d.get(*f).and_then(|v| v.as_str()).map(|t| t.to_string())).collect::<Vec<_>>())
+      .flat_map(|t| t.split_whitespace().map(|w| w.to_string()).collect::<Vec<_>>())
+      .collect();
+    for _ in 0..(if words.is_empty() { 0 } else { 8 }) {
+      // every third request: one multi-byte character of an indexed word replaced by an ASCII
+      // letter (one edit in characters, two or three in bytes)
+      let uni: Vec<&String> = words.iter().filter(|w| !w.is_ascii()).collect();
+      let w = if !uni.is_empty() && chance(r, 1, 3) {
+        let base = (*pick(r, &uni)).clone();
+        let mut c: Vec<char> = base.chars().collect();
+        if let Some(i) = c.iter().position(|ch| !ch.is_ascii()) {
+          c[i] = 'e';
+        }
+        c.into_iter().collect()
+      } else {
+        let base = pick(r, &words).clone();
+        typo(r, &base)
+      };
+      let field = pick(r, &TEXT_FIELDS).to_string();
+      let q = match r.gen_range(0..3) {
+        0 => Q::Term { field, value: w, boost: None },
+        1 => Q::Bool { must: vec![Q::Term { field, value: w, boost: None }], should: vec![gen_query(r, 0, &cfg)], must_not: vec![], filter: vec![], msm: None, boost: None },
+        _ => Q::Bool { must: vec![], should: vec![Q::Term { field, value: w, boost: None }, gen_query(r, 1, &cfg)], must_not: vec![], filter: vec![], msm: None, boost: None },
+      };
+      let (edits, plen, minlen) = (*pick(r, &[0u8, 1, 1, 1, 2, 2, 3]), r.gen_range(0..=2), r.gen_range(0..=4));
+      let mut req = base_request(&q, None, n_slots + 5, *pick(r, &["bm25", "wand"]));
+      req["fuzzy"] = json!({"max_edits": edits, "prefix_length": plen, "max_expansions": 200, "min_length": minlen});
+      let res = run_search(&reader, &req);
+      let mut aq = abstract_query(&b.schema, &q, &default_fields(), true, 1.0, &mut dict);
+      annotate_fuzzy(&mut aq, &json!({"has": true, "edits": edits, "plen": plen, "minlen": minlen}));
+      searches.push(json!({
+        "ev": "search", "check": "match", "prop": "C07", "note": "fuzzy",
+        "q": aq, "filters": [], "obs": obs_ids(&res), "req": req.to_string(),
+      }));
     }
   }
   let mut phrases = if fam == "query" { boundary_phrases(&b, r, 4) } else { Vec::new() };
